@@ -680,6 +680,10 @@ def r15(ck):
             must += 1
             if "record_all" not in meths:
                 other = [t[:70] for t, v in conds if t != "has_been_set()" and (t, v) not in lv and not t.startswith(("le(promoted", "is_never(", "Not(is_never(", "is_enabled(", "is_always("))]
+                # (the logger's own verdict, asked directly -- `log::logger().enabled(&meta)` -- is what Span::log asks as well:
+                # whether the metadata it is asked about is the record's is not decided here)
+                if other and all(t.startswith("enabled(logger()") for t in other):
+                    continue
                 withheld.append(other or ["<no further condition>"])
         key = "%s [span!, log]: creation record whenever one can exist" % fname
         n += 1
